@@ -103,6 +103,7 @@ func c01ObsStr(o pkglint.VerifScopeObs) string {
 //
 //	S <hexname.hexname...> <ops>            -> <infos>\t<trace>        | panic\t<text>
 //	R <mode> <allops> <pkgops> <hextext>    -> <infos>\t<infos>\t<hasExpr>\t<hexresult> | panic\t<text>
+//	A <hexname.hexname...> <otherops> <ops> -> <infos>\t<obs;obs...>  | panic\t<text>   (target.DefineAll(other))
 func init() {
 	register("tool-c01-scope", func(ctx *Ctx) *Result {
 		in, err := os.Open(filepath.Join(ctx.Work, "jobs.txt"))
@@ -141,6 +142,21 @@ func init() {
 					steps[i] = strings.Join(obs, ";")
 				}
 				fmt.Fprintf(w, "%s\t%s\n", c01InfosStr(infos), strings.Join(steps, "|"))
+			case len(f) == 4 && f[0] == "A":
+				var names []string
+				for _, n := range strings.Split(f[1], ".") {
+					names = append(names, unhx(n))
+				}
+				infos, obs, p := pkglint.VerifScopeDefineAll(c01OpsParse(f[2]), c01OpsParse(f[3]), names)
+				if p != "" {
+					fmt.Fprintf(w, "panic\t%s\n", hx(p))
+					break
+				}
+				os := make([]string, len(obs))
+				for j, o := range obs {
+					os[j] = c01ObsStr(o)
+				}
+				fmt.Fprintf(w, "%s\t%s\n", c01InfosStr(infos), strings.Join(os, ";"))
 			case len(f) == 5 && f[0] == "R":
 				mode := int(f[1][0] - '0')
 				ai, pi, he, r, p := pkglint.VerifResolveExprs(c01OpsParse(f[2]), c01OpsParse(f[3]), mode, unhx(f[4]))
@@ -365,7 +381,7 @@ func c01ScopeAlphabet(full bool) []pkglint.VerifScopeOp {
 var c01ScopeNames = []string{"A", "A.b", "A.*", "B"}
 
 func c01RandomScopeCase(r *Rng) c01ScopeCase {
-	names := []string{"A", "A.b", "A.c", "B", "B.x.y", ".x", "A.", "PKG_OPTIONS.p0"}
+	names := []string{"A", "A.b", "A.c", "A.a", "B", "B.x.y", "B.a.z", ".x", "A.", "PKG_OPTIONS.p0"}
 	kinds := []string{"=", "+=", "?=", "!=", ":=", "#", "#+=", "=empty", "doc"}
 	n := 1 + r.Intn(9)
 	var ops []pkglint.VerifScopeOp
@@ -500,10 +516,10 @@ func c01UnitScope(ctx *Ctx, res *Result) (crossReqs []string) {
 		rcases = append(rcases, c01RandomScopeCase(rng))
 	}
 	rreqs := c01CompareScope(ctx, res, rcases, "random")
-	for i := 0; i < 60 && i*997 < len(reqs); i++ {
+	for i := 0; i < 50 && i*997 < len(reqs); i++ {
 		crossReqs = append(crossReqs, reqs[i*997])
 	}
-	for i := 0; i < 40 && i*131 < len(rreqs); i++ {
+	for i := 0; i < 30 && i*131 < len(rreqs); i++ {
 		crossReqs = append(crossReqs, rreqs[i*131])
 	}
 	return
@@ -776,10 +792,10 @@ func c01UnitResolve(ctx *Ctx, res *Result) (crossReqs []string) {
 		rcases = append(rcases, c01RandomResolveCase(rng))
 	}
 	rreqs := c01CompareResolve(ctx, res, rcases, "random")
-	for i := 0; i < 60 && i*149 < len(reqs); i++ {
+	for i := 0; i < 50 && i*149 < len(reqs); i++ {
 		crossReqs = append(crossReqs, reqs[i*149])
 	}
-	for i := 0; i < 40 && i*499 < len(rreqs); i++ {
+	for i := 0; i < 30 && i*499 < len(rreqs); i++ {
 		crossReqs = append(crossReqs, rreqs[i*499])
 	}
 	return
@@ -791,6 +807,7 @@ func c01ScopeFloors(res *Result) {
 		"scope.exhaustive": 60000, "scope.random": 5000, "scope.line-kind.0": 10000, "scope.line-kind.1": 5000, "scope.line-kind.2": 5000,
 		"scope.op.1": 1000, "scope.op.3": 1000, "scope.op.4": 1000, "scope.defined-but-no-last-definition": 1000,
 		"scope.last-definition-but-not-defined": 1000, "scope.commented": 1000, "scope.indeterminate": 1000, "scope.found-by-fallback": 500,
+		"defineall.exhaustive": 70000, "defineall.random": 5000, "defineall.defined-but-no-last-definition": 1000, "defineall.copied": 50000,
 		"resolve.exhaustive": 9000, "resolve.random": 10000, "resolve.has-expr": 5000, "resolve.expanded": 3000,
 		"resolve.passes.1": 500, "resolve.passes.2": 500, "resolve.passes.3": 300, "resolve.passes.4": 20, "resolve.fuel-bound-reached": 50,
 	}
@@ -811,10 +828,156 @@ func c01ReplayScopeJob(ctx *Ctx, res *Result, rep map[string]any) {
 			c.names = append(c.names, unhx(n))
 		}
 		c01CompareScope(ctx, res, []c01ScopeCase{c}, "replay")
+	case len(f) == 4 && f[0] == "A":
+		c := c01DefAllCase{other: c01OpsParse(f[2]), ops: c01OpsParse(f[3])}
+		for _, n := range strings.Split(f[1], ".") {
+			c.names = append(c.names, unhx(n))
+		}
+		c01CompareDefAll(ctx, res, []c01DefAllCase{c}, "replay")
 	case len(f) == 5 && f[0] == "R":
 		c := c01ResolveCase{mode: int(f[1][0] - '0'), all: c01OpsParse(f[2]), pkg: c01OpsParse(f[3]), text: unhx(f[4])}
 		c01CompareResolve(ctx, res, []c01ResolveCase{c}, "replay")
 	default:
 		res.Broken = "bad scope/resolve replay"
 	}
+}
+
+// ---- Scope.DefineAll ----
+
+type c01DefAllCase struct {
+	other, ops []pkglint.VerifScopeOp
+	names      []string
+}
+
+func (c c01DefAllCase) hexNames() string {
+	hn := make([]string, len(c.names))
+	for i, n := range c.names {
+		hn[i] = hx(n)
+	}
+	return strings.Join(hn, ".")
+}
+
+func (c c01DefAllCase) job() string {
+	return "A " + c.hexNames() + " " + c01OpsJob(c.other) + " " + c01OpsJob(c.ops)
+}
+
+func (c c01DefAllCase) readable() string {
+	return "target {" + c01ScopeCase{ops: c.ops}.readable() + "}.DefineAll(other {" + c01ScopeCase{ops: c.other}.readable() + "})"
+}
+
+func c01CompareDefAll(ctx *Ctx, res *Result, cases []c01DefAllCase, kind string) []string {
+	jobs := make([]string, len(cases))
+	for i, c := range cases {
+		jobs[i] = c.job()
+	}
+	impl, stuck, err := c01RunScopeJobs(ctx, jobs, "a")
+	if err != nil {
+		res.Broken = err.Error()
+		return nil
+	}
+	reqs := make([]string, len(cases))
+	for i, c := range cases {
+		infos, _, _ := strings.Cut(impl[i], "\t")
+		all := append(append([]pkglint.VerifScopeOp(nil), c.other...), c.ops...)
+		parts := strings.Split(c01OpsOracle(all, infos, "+"), "+")
+		o, t := "-", "-"
+		if len(c.other) > 0 && len(parts) >= len(c.other) {
+			o = strings.Join(parts[:len(c.other)], "+")
+		}
+		if len(c.ops) > 0 && len(parts) == len(all) {
+			t = strings.Join(parts[len(c.other):], "+")
+		}
+		reqs[i] = "defall " + c.hexNames() + " " + o + " " + t
+	}
+	ans, err := runOracle(ctx, "c01", reqs)
+	if err != nil {
+		res.Broken = err.Error()
+		return nil
+	}
+	ndis := 0
+	for i, c := range cases {
+		res.Count("defineall."+kind, 1)
+		infos, obs, _ := strings.Cut(impl[i], "\t")
+		rep := map[string]any{"kind": "scope", "job": jobs[i], "readable": c.readable()}
+		if why, ok := stuck[i]; ok || infos == "panic" || impl[i] == "skipped" || impl[i] == "" {
+			rep["broken"] = "the real Scope.DefineAll panicked or did not return"
+			res.AddViolation(Violation{Key: "C01/correspondence/scope-defineall", What: fmt.Sprintf("%s: the real code did not answer (%s %s); the model says %q (C01_scope_define_all_run: no panic for scopes built by Define/Fallback/Use)", c.readable(), why, unhx(obs), ans[i]),
+				FoundInput: false, Size: len(jobs[i]), Replay: rep})
+			continue
+		}
+		for _, o := range strings.Split(obs, ";") {
+			f := strings.Split(o, ",")
+			if len(f) == 13 {
+				if f[1] == "1" && f[7] == "0" {
+					res.Count("defineall.defined-but-no-last-definition", 1)
+				}
+				if f[0] != "0" {
+					res.Count("defineall.copied", 1)
+				}
+			}
+		}
+		if ans[i] == obs {
+			continue
+		}
+		res.Count("defineall.disagreements", 1)
+		if ndis++; ndis <= 3 {
+			rep["broken"] = "correspondence Scope.DefineAll (scope.go) = Model/Scope.v sdefine_all"
+			rep["model"], rep["impl"] = ans[i], obs
+			res.AddViolation(Violation{Key: "C01/correspondence/scope-defineall", What: fmt.Sprintf("%s: model %q, code %q", c.readable(), ans[i], obs), FoundInput: false, Size: len(jobs[i]), Replay: rep})
+		}
+	}
+	res.Evaluations += len(cases)
+	res.TracesValidated += len(cases)
+	res.DistinctNontrivial += len(cases)
+	return reqs
+}
+
+func c01UnitDefineAll(ctx *Ctx, res *Result) (crossReqs []string) {
+	maxOther, nrand := 3, 10000
+	if ctx.Tier == "thorough" {
+		nrand = 150000
+	}
+	al := c01ScopeAlphabet(false)
+	names := []string{"A", "A.b", "A.*", "B"}
+	var others [][]pkglint.VerifScopeOp
+	var rec func(prefix []pkglint.VerifScopeOp)
+	rec = func(prefix []pkglint.VerifScopeOp) {
+		others = append(others, append([]pkglint.VerifScopeOp(nil), prefix...))
+		if len(prefix) == maxOther {
+			return
+		}
+		for _, o := range al {
+			rec(append(prefix, o))
+		}
+	}
+	rec(nil)
+	var cases []c01DefAllCase
+	for _, o := range others {
+		cases = append(cases, c01DefAllCase{other: o, names: names})
+		for _, t := range al {
+			cases = append(cases, c01DefAllCase{other: o, ops: []pkglint.VerifScopeOp{t}, names: names})
+		}
+	}
+	reqs := c01CompareDefAll(ctx, res, cases, "exhaustive")
+	if res.Broken != "" {
+		return
+	}
+	// random: several names with the same canonical form, so that the sorted order of DefineAll matters
+	rng := NewRng(ctx.Seed ^ 0xdefa11)
+	var rcases []c01DefAllCase
+	for i := 0; i < nrand; i++ {
+		a, b := c01RandomScopeCase(rng), c01RandomScopeCase(rng)
+		if rng.Chance(30) {
+			b.ops = nil
+		}
+		rcases = append(rcases, c01DefAllCase{other: a.ops, ops: b.ops, names: append(a.names, "A.a", "B.x", "B.a.z")})
+	}
+	rreqs := c01CompareDefAll(ctx, res, rcases, "random")
+	for i := 0; i < 25 && i*1999 < len(reqs); i++ {
+		crossReqs = append(crossReqs, reqs[i*1999])
+	}
+	for i := 0; i < 15 && i*397 < len(rreqs); i++ {
+		crossReqs = append(crossReqs, rreqs[i*397])
+	}
+	return
 }
